@@ -49,7 +49,10 @@ FnOf(a, b, c) == 51 * ((c - b) % 26) + c + 26 * 51 * a     \* TS 45.002 4.3.3
 
 RECURSIVE Pow2(_)
 Pow2(k) == IF k = 0 THEN 1 ELSE 2 * Pow2(k - 1)
-NBIN(N) == CHOOSE k \in 1..8 : Pow2(k - 1) <= N /\ N < Pow2(k)     \* INTEGER(log2(N)+1)
+\* number of bits required to represent N = INTEGER(log2(N)+1); Hopping.tla checks
+\* NBIN(N) = the k with 2^(k-1) <= N < 2^k for all N 1..64
+RECURSIVE NBIN(_)
+NBIN(N) == IF N < 2 THEN 1 ELSE 1 + NBIN(N \div 2)
 
 RECURSIVE Xor(_, _)
 Xor(a, b) == IF a = 0 /\ b = 0 THEN 0 ELSE (((a % 2) + (b % 2)) % 2) + 2 * Xor(a \div 2, b \div 2)
